@@ -149,6 +149,22 @@ def c17_task(n_targets):
         judged += 1
         if res.code != 0:
             v.append(("restored-api-fails", "analyze after restoring every file: exit %s %s" % (res.code, res.err[:200])))
+        # the documented remedy: after the generated file (or the lockfile) was damaged, generating again from the
+        # unchanged source succeeds and leaves a configuration every API accepts
+        mid = size // 2
+        flipped = bytearray(g)
+        flipped[mid] ^= 0x20 if chr(flipped[mid]).isalpha() else 0x01
+        for ename, fname, data in (("generated:same-length edit", "Monorail.json", bytes(flipped)), ("generated:append", "Monorail.json", g + b"\n"),
+                                   ("lock:other-checksum", "Monorail.lock", b'{"checksum":"' + b"0" * 64 + b'"}')):
+            open(r.path(fname), "wb").write(data)
+            gen = r.mr("-f", r.path("Monorail.json"), "config", "generate", stdin=src_text.encode())
+            judged += 1
+            ok = [r.mr(*argv).code for _, argv in (("config show", ["config", "show"]), ("analyze", ["analyze"]))]
+            if gen.code != 0 or ok != [0, 0]:
+                v.append(("regenerate-does-not-repair", "after %s, `config generate` from the unchanged source: exit %s; then config show / analyze exit %s (generated file %s the first generation)" % (
+                    ename, gen.code, ok, "equals" if open(r.path("Monorail.json"), "rb").read() == g else "differs from")))
+            for fn in ("Monorail.json", "Monorail.lock"):
+                open(r.path(fn), "wb").write(files[fn])
         return {"judged": judged, "v": [(sig, d, {"cli_c17": arg}) for sig, d in v], "size": size}
     except common.EngineError as e:
         return {"engine_error": str(e)}
@@ -262,11 +278,19 @@ def c17_elsewhere_task(layout):
         r = sc.Repo(s, "r", src["targets"], commands={"pkg/t0000": {"build": "x"}}, ports=False)
         os.unlink(r.path("Monorail.json"))
         cwd = r.path("conf") if layout == "subdir" else os.path.join(s.dir, "elsewhere")
+        if layout.startswith("symlink"):
+            # the configuration file at the repository root is a symbolic link into a directory of generated
+            # files (not existing yet when generate runs / already there, empty); invoked from the root, no -f
+            cwd = r.dir
+            os.makedirs(r.path("gen"))
+            if layout == "symlink-existing":
+                open(r.path("gen/Monorail.json"), "w").close()
+            os.symlink("gen/Monorail.json", r.path("Monorail.json"))
         os.makedirs(cwd, exist_ok=True)
         src_text = json.dumps(src, indent=2)
         with open(os.path.join(cwd, "Monorail.src.json"), "w") as f:
             f.write(src_text)
-        f_arg = ["-f", r.path("Monorail.json")]
+        f_arg = [] if layout.startswith("symlink") else ["-f", r.path("Monorail.json")]
         gen = r.mr(*f_arg, "config", "generate", stdin=src_text.encode(), cwd=cwd)
         if gen.code != 0:
             return {"judged": 0, "v": []}   # generating from elsewhere is refused: nothing to judge
@@ -689,6 +713,103 @@ def c08_latest_task(arg):
         s.cleanup()
 
 
+def c08_big_show_task(arg):
+    """`log show` over a run whose stored logs are large and hardly compressible (12 tasks x 2 streams x
+    ~0.7 MiB of pseudo-random bytes, each ending in a newline): every header is followed by exactly its
+    own log's bytes. Repeated, since whatever `log show` does internally with that much data may vary."""
+    ntargets, nbytes, reps = arg
+    s = sc.Scratch("c08big")
+    try:
+        import random
+        ts = [{"path": "t%02d" % i} for i in range(ntargets)]
+        r = sc.Repo(s, "r", ts, commands={t["path"]: {"build": "x"} for t in ts}, init_git=False)
+        want = {}
+        for i, t in enumerate(ts):
+            rnd = random.Random(1000 + i)
+            so = rnd.randbytes(nbytes).replace(b"[monorail", b"[MONORAIL") + b"\n"
+            se = rnd.randbytes(nbytes // 2).replace(b"[monorail", b"[MONORAIL") + b"\n"
+            r.set_script(t["path"], "build", ["out " + so.hex(), "err " + se.hex(), "exit 0"])
+            want[("stdout.zst", t["path"], "build")] = so
+            want[("stderr.zst", t["path"], "build")] = se
+        res = r.mr("run", "-c", "build", env=r.trace_env(), timeout=300)
+        if res.code != 0 or res.json() is None:
+            return {"judged": 1, "v": [("e2e-run-failed", "large logs: exit %s %s" % (res.code, res.err[:200]), {"cli_c08_big": list(arg)})]}
+        v = []
+        judged = 0
+        exp = sorted((f, t, c, b) for (f, t, c), b in want.items())
+        for rep in range(reps):
+            ls = r.mr("log", "show", "--stdout", "--stderr", timeout=300)
+            judged += 1
+            got = p_hist.parse_log_show(ls.out)
+            if ls.code != 0 or got != exp:
+                bad = [(g[0], g[1], len(g[3])) for g in got if g not in exp][:4]
+                v.append(("e2e-log-show-differs", "log show over %d logs of %d / %d hardly compressible bytes (invocation %d): exit %s, %d blocks (expected %d); first blocks that are not a header followed by exactly its log: %s" % (
+                    2 * ntargets, nbytes, nbytes // 2, rep + 1, ls.code, len(got), len(exp), bad)))
+                break
+        return {"judged": judged, "v": [(sig, d, {"cli_c08_big": list(arg)}) for sig, d in v]}
+    except common.EngineError as e:
+        return {"engine_error": str(e)}
+    except Exception:
+        return {"engine_error": traceback.format_exc()[-1200:]}
+    finally:
+        s.cleanup()
+
+
+def c18_generate_pipe_task(total):
+    """`config generate` reads the source configuration from a pipe. The same value, compact and padded
+    with whitespace inside to `total` bytes, is handed over the way a slow generator would: the first 4 KiB, a
+    pause, then the rest. Accepted either both times or never, and the generated file and lockfile are the same."""
+    import subprocess
+    s = sc.Scratch("c18pipe")
+    try:
+        ports = (s.port(), s.port())
+        val = cfg_value(4, "Monorail.src.json", ports)
+        r = sc.Repo(s, "r", val["targets"], ports=False, init_git=False)
+        os.unlink(r.path("Monorail.json"))
+        compact = json.dumps(val, separators=(",", ":"))
+        r.write("Monorail.src.json", compact)   # the source that is hashed stays the same for both deliveries
+        pad = max(0, total - len(compact))
+        cut = compact.index('"targets"')
+        padded = compact[:cut] + " \n" * (pad // 2) + compact[cut:]
+        outs = []
+        for name, text in (("compact", compact), ("padded to %d bytes" % len(padded), padded)):
+            for f in ("Monorail.json", "Monorail.lock"):
+                if os.path.exists(r.path(f)):
+                    os.unlink(r.path(f))
+            p = subprocess.Popen([common.MONORAIL, "-f", r.path("Monorail.json"), "config", "generate"], cwd=r.dir, env=s.env(),
+                                 stdin=subprocess.PIPE, stdout=subprocess.PIPE, stderr=subprocess.PIPE)
+            data = text.encode()
+            try:
+                p.stdin.write(data[:4096])
+                p.stdin.flush()
+                time.sleep(0.4)
+                p.stdin.write(data[4096:])
+                p.stdin.close()
+            except BrokenPipeError:
+                pass
+            try:
+                so, se = p.stdout.read(), p.stderr.read()
+                p.wait(timeout=60)
+            except subprocess.TimeoutExpired:
+                p.kill()
+                return {"engine_error": "config generate did not end"}
+            gen = open(r.path("Monorail.json"), "rb").read() if os.path.exists(r.path("Monorail.json")) else None
+            lock = open(r.path("Monorail.lock"), "rb").read() if os.path.exists(r.path("Monorail.lock")) else None
+            outs.append((name, p.returncode, gen, lock, se[:200]))
+        v = []
+        a, b = outs
+        if (a[1], a[2], a[3]) != (b[1], b[2], b[3]):
+            v.append(("serialisation-changes-output", "config generate, source delivered through a pipe in two pieces: %s -> exit %s, generated %s bytes; %s -> exit %s, generated %s bytes %s" % (
+                a[0], a[1], a[2] and len(a[2]), b[0], b[1], b[2] and len(b[2]), b[4])))
+        return {"judged": 2, "v": [(sig, d, {"cli_c18_pipe": total}) for sig, d in v]}
+    except common.EngineError as e:
+        return {"engine_error": str(e)}
+    except Exception:
+        return {"engine_error": traceback.format_exc()[-1200:]}
+    finally:
+        s.cleanup()
+
+
 def c08_show_filters_task(_):
     """`log show` with every combination of stream flags, target filter and command filter on one stored
     run (2 targets x 3 commands - one of them named `build.release`, a name with a dot that shares its stem with `build` - one stream of one task empty): one header per selected non-empty log
@@ -701,8 +822,9 @@ def c08_show_filters_task(_):
         want = {}
         for t in ("t0", "t1"):
             for c in ("build", "test", "build.release"):
-                so = ("%s %s stdout line\nsecond\n" % (t, c)).encode()
-                se = b"" if (t, c) == ("t1", "test") else ("%s %s stderr\n" % (t, c)).encode()
+                # (coloured output: what the task wrote is what is printed, whatever the terminal settings of `log show`)
+                so = ("%s %s stdout line\n\x1b[1;31msecond\x1b[0m\n" % (t, c)).encode()
+                se = b"" if (t, c) == ("t1", "test") else ("\x1b[33m%s %s stderr\x1b[m\n" % (t, c)).encode()
                 lines = ["out " + so.hex()] + (["err " + se.hex()] if se else []) + ["exit 0"]
                 r.set_script(t, c, lines)
                 want[("stdout.zst", t, c)] = so
@@ -724,6 +846,14 @@ def c08_show_filters_task(_):
                                  and (not tf or t in tf) and (not cf or c in cf))
                     if ls.code != 0 or got != exp:
                         v.append(("e2e-log-show-filter", "%s: blocks %s, expected %s (exit %s)" % (" ".join(args), [(b[0], b[1], b[2], len(b[3])) for b in got], [(b[0], b[1], b[2], len(b[3])) for b in exp], ls.code)))
+        # the environment of the `log show` process itself: colour conventions, a dumb terminal, no terminal at all
+        exp_all = sorted((f, t, c, b) for (f, t, c), b in want.items() if b)
+        for envx in ({"NO_COLOR": "1"}, {"NO_COLOR": "1", "TERM": "dumb", "CLICOLOR": "0"}, {"CLICOLOR_FORCE": "1", "FORCE_COLOR": "1", "TERM": "xterm-256color"}, {"TERM": ""}):
+            ls = r.mr("log", "show", "--stdout", "--stderr", env=envx)
+            judged += 1
+            got = p_hist.parse_log_show(ls.out)
+            if ls.code != 0 or got != exp_all:
+                v.append(("e2e-log-show-differs", "log show with %s in its environment: blocks %s, expected %s (exit %s)" % (envx, [(b[0], b[1], b[2], b[3][:40]) for b in got][:4], [(b[0], b[1], b[2], b[3][:40]) for b in exp_all][:4], ls.code)))
         return {"judged": judged, "v": [(sig, d, {"cli_c08_show": 1}) for sig, d in v[:5]]}
     except common.EngineError as e:
         return {"engine_error": str(e)}
@@ -825,6 +955,62 @@ def c18_defaults_task(which):
         s.cleanup()
 
 
+def c18_slow_load_task(mib):
+    """A serialisation so large that loading it takes longer than the configured bind timeouts (host names
+    instead of addresses, bind_timeout_ms 300, `mib` MiB of whitespace): the lock-taking APIs behave as with the
+    compact form. A difference counts only if it shows three times out of three (time-outs can be spurious)."""
+    s = sc.Scratch("c18slow")
+    try:
+        ports = (s.port(), s.port())
+        val = cfg_value(2, None, ports)
+        val["server"]["lock"].update({"host": "localhost", "bind_timeout_ms": 300})
+        val["server"]["log"].update({"host": "localhost", "bind_timeout_ms": 300})
+        r = sc.Repo(s, "r", val["targets"], commands={val["targets"][0]["path"]: {"build": "x"}}, ports=False)
+        compact = json.dumps(val, separators=(",", ":"))
+        cut = compact.index('"targets"')
+        forms = {"compact": compact, "padded with %d MiB of whitespace" % mib: None}
+        v = []
+        judged = 0
+
+        def write(name):
+            if forms[name] is not None:
+                r.write("Monorail.json", forms[name])
+            else:
+                with open(r.path("Monorail.json"), "w") as f:
+                    f.write(compact[:cut])
+                    chunk = " \n" * (512 * 1024 // 2)
+                    for _ in range(mib * 2):
+                        f.write(chunk)
+                    f.write(compact[cut:])
+
+        def observe():
+            out = []
+            for argv in (["checkpoint", "update"], ["run", "-c", "build", "-t", val["targets"][0]["path"]], ["checkpoint", "delete"], ["out", "delete", "--all"]):
+                res = r.mr(*argv, env=r.trace_env(), timeout=300)
+                out.append((" ".join(argv[:2]), res.code, (res.err_json() or {}).get("message", "")[:80] if res.code else ""))
+            return out
+        r.git("update-index", "--assume-unchanged", "Monorail.json")
+        obs = {}
+        for rep in range(3):
+            for name in forms:
+                write(name)
+                obs.setdefault(name, []).append(observe())
+                judged += 4
+            a, b = [obs[n][-1] for n in forms]
+            if [x[:2] for x in a] == [x[:2] for x in b]:
+                break
+        else:
+            names = list(forms)
+            v.append(("serialisation-changes-output", "server hosts given by name, bind_timeout_ms 300; three times out of three: %s -> %s; %s -> %s" % (names[0], obs[names[0]][-1], names[1], obs[names[1]][-1])))
+        return {"judged": judged, "v": [(sig, d, {"cli_c18_slow": mib}) for sig, d in v]}
+    except common.EngineError as e:
+        return {"engine_error": str(e)}
+    except Exception:
+        return {"engine_error": traceback.format_exc()[-1200:]}
+    finally:
+        s.cleanup()
+
+
 def c18_checkpoint_task(_):
     """A checkpoint is recorded, one target changes, and only then the configuration file is re-serialised
     (same value, new bytes, new modification time): analyze and run give what they gave before."""
@@ -871,12 +1057,14 @@ def run_slice(prop, tier):
     if prop == "C17":
         sizes = [3, 60, 400] if tier == "quick" else [3, 60, 160, 400, 1500]
         res = common.pmap(c17_task, sizes + [[3, "binary-source"]])
-        res += common.pmap(c17_elsewhere_task, ["subdir", "outside"])
+        res += common.pmap(c17_elsewhere_task, ["subdir", "outside", "symlink-dangling", "symlink-existing"])
         res += common.pmap(c17_regen_from_generated_task, [0])
         res += common.pmap(c17_names_task, ["Monorail.prod.json", "monorail.ci.v2.json", "cfg.json"])
     elif prop == "C18":
         res = common.pmap(c18_task, [3, 40] if tier == "quick" else [3, 40, 300])
         res += common.pmap(c18_checkpoint_task, [0])
+        res += common.pmap(c18_generate_pipe_task, [5000, 70_000, 300_000] if tier == "quick" else [5000, 40_000, 70_000, 140_000, 300_000, 1_000_000])
+        res += common.pmap(c18_slow_load_task, [48] if tier == "quick" else [48, 128])
         res += common.pmap(c18_defaults_task, ["lock-port-only", "log-port-only", "lock-port-log-host", "lock-timeout-only", "empty-server"])
     elif prop == "C08":
         scripts = c08_scripts(tier)
@@ -888,6 +1076,7 @@ def run_slice(prop, tier):
         res += common.pmap(c08_repeat_task, [(how, k) for how in ("-c twice", "sequence twice", "sequence mix", "slot reuse") for k in (1, 3)])
         res += common.pmap(c08_show_filters_task, [0])
         res += common.pmap(c08_tiny_task, [0])
+        res += common.pmap(c08_big_show_task, [(12, 700_000, 4)] if tier == "quick" else [(12, 700_000, 10), (24, 400_000, 6), (4, 2_500_000, 6)])
         res += common.pmap(c08_latest_task, [(None, 13), (2, 5), (3, 8)] if tier == "quick" else [(None, 23), (1, 4), (2, 7), (3, 11), (5, 13)])
     else:
         return 0, []
@@ -930,6 +1119,12 @@ def replay_case(prop, case):
         r = c17_elsewhere_task(case["cli_c17_else"])
     elif "cli_c17" in case:
         r = c17_task(case["cli_c17"])
+    elif "cli_c18_slow" in case:
+        r = c18_slow_load_task(case["cli_c18_slow"])
+    elif "cli_c18_pipe" in case:
+        r = c18_generate_pipe_task(case["cli_c18_pipe"])
+    elif "cli_c08_big" in case:
+        r = c08_big_show_task(tuple(case["cli_c08_big"]))
     elif "cli_c18_defaults" in case:
         r = c18_defaults_task(case["cli_c18_defaults"])
     elif "cli_c18_cp" in case:
